@@ -136,6 +136,95 @@ def c16_chained(task):
     return {"cov": cov, "viol": viol}
 
 
+def big_content(n, sw, ch):
+    top = 2 ** (8 * sw - 1) - 1
+    return b"".join(int((i * 11 + c * 5 + 3) % top).to_bytes(sw, "little", signed=True) for i in range(n) for c in range(ch))
+
+
+def c16_large(task):
+    """Large regions: sample, seconds and millis slicing around 4096 / 65536 and the ends."""
+    sw, ch = task
+    AR = lib()["AR"]
+    cov = {"evaluations": 0, "distinct_nontrivial": 0, "large_rows_not_exhaustive": 0, "samples": []}
+    viol = []
+    n, sr = 70001, 8192
+    bps = sw * ch
+    data = big_content(n, sw, ch)
+    r = AR(data, sr, sw, ch)
+    bounds = [None, 0, 1, 4095, 4096, 4097, 65535, 65536, 65537, n - 1, n, n + 1, -1, -4096, -65537, -n, -n - 1]
+    for a, b in itertools.product(bounds, repeat=2):
+        cov["evaluations"] += 1
+        cov["large_rows_not_exhaustive"] += 1
+        rng = range(n)[a:b]
+        exp = data[rng.start * bps : rng.stop * bps] if len(rng) else b""
+        try:
+            got = r[a:b]
+            msg = None if got.data == exp and len(got) == len(rng) and same_params(got, sr, sw, ch) else \
+                "region[%r:%r] of %d samples holds %d samples, list slicing gives %d (or content differs)" % (a, b, n, len(got), len(rng))
+            if msg is None and a is not None and b is not None and a >= 0 and b >= 0:
+                g2 = r.seconds[a / sr : b / sr]
+                if g2.data != exp:
+                    msg = "seconds[%r/%d:%r/%d] holds %d samples, expected %d" % (a, sr, b, sr, len(g2), len(rng))
+        except Exception as exc:
+            msg = "region[%r:%r] raised %r" % (a, b, exc)
+        if exp:
+            cov["distinct_nontrivial"] += 1
+        if msg and len(viol) < 5:
+            viol.append(("slice-large sw=%d ch=%d [%r:%r]" % (sw, ch, a, b), msg, {"kind": "c16L", "sw": sw, "ch": ch}))
+    for t0, t1 in ((0, 1000), (500, 8544), (1000, None), (-1000, None), (None, -500), (8000, 8001)):
+        cov["evaluations"] += 1
+        try:
+            got = r.millis[t0:t1]
+            ref = r.seconds[(None if t0 is None else t0 / 1000) : (None if t1 is None else t1 / 1000)]
+            if got.data != ref.data:
+                viol.append(("millis-large sw=%d ch=%d [%r:%r]" % (sw, ch, t0, t1), "millis[%r:%r] differs from seconds view at t/1000" % (t0, t1),
+                             {"kind": "c16L", "sw": sw, "ch": ch}))
+        except Exception as exc:
+            viol.append(("millis-large sw=%d ch=%d [%r:%r]" % (sw, ch, t0, t1), "raised %r" % (exc,), {"kind": "c16L", "sw": sw, "ch": ch}))
+    cov["samples"].append({"large_region_samples": n, "sw": sw, "ch": ch})
+    return {"cov": cov, "viol": viol}
+
+
+def c17_large(rep):
+    """Large operands: long repetition, division into many pieces, sums and joins of many regions."""
+    L = lib()
+    AR, core = L["AR"], L["core"]
+    for sw, ch in ((2, 2), (1, 3), (4, 1)):
+        n = 70001
+        data = big_content(n, sw, ch)
+        r = AR(data, 8000, sw, ch)
+        keep = bytes(data)
+        small = AR(big_content(5, sw, ch), 8000, sw, ch)
+        cases = []
+        for k in (2, 7, 4096, 4097, 65536, 70000, 70001, 70002):
+            rep.add("evaluations")
+            pieces = r / k
+            lens = [len(p) for p in pieces]
+            ok = len(pieces) == min(k, n) and b"".join(p.data for p in pieces) == data and max(lens) - min(lens) <= 1 and min(lens) >= 1
+            if not ok:
+                rep.violation("div-large sw=%d ch=%d /%d" % (sw, ch, k), "r/%d of %d samples: %d pieces, lengths %d..%d" % (
+                    k, n, len(pieces), min(lens), max(lens)), {"kind": "c17L"})
+        for k in (1000, 4097):
+            rep.add("evaluations")
+            if (small * k).data != small.data * k:
+                rep.violation("mul-large sw=%d ch=%d *%d" % (sw, ch, k), "r*%d is not %d repetitions" % (k, k), {"kind": "c17L"})
+        parts = r / 300
+        rep.add("evaluations")
+        if sum(parts).data != data or (parts[0] + parts[1] + parts[2]).data != data[: sum(len(p) for p in parts[:3]) * sw * ch]:
+            rep.violation("sum-large sw=%d ch=%d" % (sw, ch), "sum of 300 pieces differs from the original", {"kind": "c17L"})
+        sil = core.make_silence(3 / 8000, 8000, sw, ch)
+        rep.add("evaluations")
+        if sil.join(parts).data != sil.data.join(p.data for p in parts):
+            rep.violation("join-large sw=%d ch=%d" % (sw, ch), "join of 300 pieces differs from byte-level interleaving", {"kind": "c17L"})
+        for d in (1.0, 8.5, 0.51200625):
+            rep.add("evaluations")
+            s_ = core.make_silence(d, 8000, sw, ch)
+            if s_.data != b"\0" * (round(d * 8000) * sw * ch):
+                rep.violation("silence-large sw=%d ch=%d d=%r" % (sw, ch, d), "make_silence(%r) holds %d bytes" % (d, len(s_.data)), {"kind": "c17L"})
+        if r.data != keep:
+            rep.violation("mutated-large sw=%d ch=%d" % (sw, ch), "operand altered", {"kind": "c17L"})
+
+
 def expected_view_slices(smp, sr, start_s, stop_s):
     """All sample slices the statement allows for seconds bounds (exact rationals)."""
     n = len(smp)
@@ -729,6 +818,7 @@ def run(prop, tier):
         c16_type_errors(rep)
         nmax = 5 if quick else 7
         tasks = [("s", (sw, ch, nmax)) for sw, ch in FORMATS5] + [("c", (sw, ch)) for sw, ch in FORMATS5]
+        tasks += [("L", (sw, ch)) for sw, ch in ((2, 2), (1, 3), (4, 1))]
         rates = [4, 8, 16, 10, 44100] if quick else [4, 8, 16, 10, 44100, 3, 22050, 48000]
         tasks += [("v", (sr, tier)) for sr in rates]
         for part in common.pmap(_c16_dispatch, tasks):
@@ -740,6 +830,7 @@ def run(prop, tier):
         rep = common.Report(prop, tier, "explicit-state search over region values under +, *, /, join, slicing to a depth, "
                             "against sample lists; operands snapshotted around every operation; exhaustive pair tables")
         c17_misc(rep)
+        c17_large(rep)
         depth = 3 if quick else 4
         nparts = 16
         for part in common.pmap(c17_work, [(depth, i, nparts) for i in range(nparts)]):
@@ -773,6 +864,8 @@ def _c18_dispatch(t):
 def _c16_dispatch(t):
     if t[0] == "c":
         return c16_chained(t[1])
+    if t[0] == "L":
+        return c16_large(t[1])
     return c16_samples(t[1]) if t[0] == "s" else c16_views(t[1])
 
 
@@ -795,6 +888,12 @@ def replay(case):
             if c.get("a") == case["a"] and c.get("b") == case["b"] and c.get("n") == case["n"] and c["kind"] == k:
                 return msg
         return part["viol"][0][1] if part["viol"] else None
+    if k == "c16L":
+        part = c16_large((case["sw"], case["ch"]))
+        return part["viol"][0][1] if part["viol"] else None
+    if k == "c17L":
+        c17_large(rep)
+        return rep.violations[0][1] if rep.violations else None
     if k == "c16c":
         part = c16_chained((case["sw"], case["ch"]))
         return part["viol"][0][1] if part["viol"] else None
